@@ -476,7 +476,7 @@ FLOATVECS = [{"k": "scalar", "s": "f32"}] + [{"k": "vec", "n": n, "s": "f32"} fo
 
 
 def io_struct(rng, name, types, n_members, builtins=(), sparse=True, prefix="a"):
-    locs = rng.sample(range(0, 12 if sparse else n_members), n_members)
+    locs = rng.sample(range(0, 8 if sparse else n_members), n_members)
     if rng.random() < 0.5:
         locs.sort()
     mem = [{"name": "%s%d" % (prefix, j), "ty": rng.choice(types), "io": {"k": "loc", "n": locs[j]}} for j in range(n_members)]
@@ -515,7 +515,11 @@ def host_members(rng, space, inner=None, big_arrays=False):
     return mem
 
 
-def role_shader(rng, big_arrays=True):
+ENTRY_NAMES = {"vs_main": ["vs_main", "vs_na\u00efve", "VS_Main", "gr\u00f6\u00dfe_vs", "v"], "fs_main": ["fs_main", "fs_caf\u00e9", "fragment\u03c3", "fsMain2"],
+               "cs_main": ["cs_main", "\u03c3\u03ba\u03b9\u03ac", "update_particles", "cs\u00df"], "vs_shadow": ["vs_shadow", "shadow_\u00e9"]}
+
+
+def role_shader(rng, big_arrays=True, entry_names=False):
     S = {"structs": [], "globals": [], "consts": [], "overrides": [], "functions": [], "entries": []}
     g = [0]
 
@@ -531,7 +535,7 @@ def role_shader(rng, big_arrays=True):
         if rng.random() < 0.4:
             st = io_struct(rng, "InstanceInput", VERTEXABLE, rng.randint(1, 3), prefix="i")
             for m in st["members"]:
-                m["io"]["n"] += 12
+                m["io"]["n"] += 8
             S["structs"].append(st)
             vparams.insert(rng.randint(0, 1), {"k": "struct", "name": "instance_in", "ty": "InstanceInput"})
     if rng.random() < 0.3:
@@ -606,6 +610,9 @@ def role_shader(rng, big_arrays=True):
     S["entries"].append(e)
     if rng.random() < 0.5:
         S["entries"].append({"name": "cs_main", "stage": "compute", "params": [], "body": uses("compute"), "wg": [str(rng.choice([1, 8, 64]))] + ([str(rng.choice([1, 4]))] if rng.random() < 0.5 else [])})
+    if entry_names:
+        for e in S["entries"]:
+            e["name"] = rng.choice(ENTRY_NAMES[e["name"]])
     return S, has_rt
 
 
